@@ -252,6 +252,6 @@ def short_name(fi):
     return fi.qualname.split("fast_ticc.")[-1]
 
 
-@rule("C06", "R5", "OWN", "metrics and per-point scoring read the final state without modifying it (all result fields describe one state)", floor=3)
+@rule("C06", "R5", "OWN", "metrics and per-point scoring read the final state without modifying it (all result fields describe one state)", floor=3, evidence=True)
 def r5(ctx):
     readers_do_not_write(ctx, ["cluster_metrics.bayesian_information_criterion", "cluster_metrics.calinski_harabasz_index", per_cluster_helper(ctx.ana)])
